@@ -339,6 +339,16 @@ func (c *Carrier) Pending() int {
 	return len(c.Out)
 }
 
+// PeekOut returns the oldest undelivered frame written by this side.
+func (c *Carrier) PeekOut() (Frame, bool) {
+	c.mu.Lock()
+	defer c.mu.Unlock()
+	if len(c.Out) == 0 {
+		return Frame{}, false
+	}
+	return c.Out[0], true
+}
+
 // PopOut removes the oldest undelivered frame written by this side.
 func (c *Carrier) PopOut() (Frame, bool) {
 	c.mu.Lock()
